@@ -67,6 +67,11 @@ impl TestCase {
                     expected,
                 });
             }
+        } else if output.exit_code == ExitStatus::Unknown {
+            // killed by a signal, aborted or never started: there is nothing to succeed
+            return Err(TestCaseError::InternalError(anyhow::anyhow!(
+                "execution did not end in an exit code"
+            )));
         }
         let diff_tool = DiffTool::new(self.expectations.clone());
         let stream = if self.config.output_stream == Some(OutputStreamControl::Stderr) {
